@@ -1638,11 +1638,12 @@ class Emitter:
             if e.get("kind") != "CXXConstructExpr":
                 raise Unsupported("base initialiser")
             fnt = e.get("ctorType", {}).get("qualType")
-            args = self.call_args(e.get("inner", []), self.fn_params_from(fnt))
+            # arguments may hoist temporaries (calls evaluated first): emit those statements before the base ctor call
+            pre, args = self.with_pre(lambda: self.call_args(e.get("inner", []), self.fn_params_from(fnt)))
             cn = self.fn_cname(btag, "ctor", fnt)
             self.note_proto(cn, "void", ["struct %s*" % btag] + self.param_ctypes_from(fnt), "ctor " + btag + fnt)
             self.callees.setdefault(cn, "%s::%s %s" % (btag, btag, fnt))
-            return ["%s%s(%s);" % (ind, cn, ", ".join(["&self->__b_" + btag] + args))]
+            return [ind + p for p in pre] + ["%s%s(%s);" % (ind, cn, ", ".join(["&self->__b_" + btag] + args))]
         raise Unsupported("constructor initialiser form")
 
 
